@@ -24,6 +24,8 @@ func main() {
 		os.Exit(cmdDump(os.Args[2:]))
 	case "list":
 		os.Exit(cmdList(os.Args[2:]))
+	case "check":
+		os.Exit(cmdCheck(os.Args[2:]))
 	default:
 		fmt.Fprintln(os.Stderr, "unknown command", os.Args[1])
 		os.Exit(2)
@@ -99,24 +101,61 @@ type OblReport struct {
 	SMTFile string `json:"smt_file,omitempty"`
 }
 
+type verifyOpts struct {
+	repo, prop, fnre, out, dump string
+	timeout, jobs              int
+	verbose, content, quiet    bool
+}
+
+type verifyResult struct {
+	Reports  []*FnReport
+	Total    int
+	OK       int
+	Failed   int
+	Undec    int
+	Vacuous  int
+	LoadMs   int64
+	SolverMs int64
+	WallS    float64
+	LoadErr  string
+	eng      *Engine
+}
+
 func cmdVerify(args []string) int {
 	fs := flag.NewFlagSet("verify", flag.ExitOnError)
-	repo := fs.String("repo", "/repo", "repository root")
-	prop := fs.String("prop", "", "property id (functions whose contract lists it)")
-	fnre := fs.String("fn", "", "regexp selecting functions by name (overrides -prop)")
-	timeout := fs.Int("timeout", 10, "per-obligation solver timeout in seconds")
-	out := fs.String("json", "", "write a JSON report here")
-	dump := fs.String("dumpdir", "", "write failing/undecided SMT queries here")
-	verbose := fs.Bool("v", false, "print every obligation")
-	jobs := fs.Int("j", 16, "parallel solver jobs")
-	content := fs.Bool("content", false, "byte-content axioms for append (T2)")
+	var o verifyOpts
+	fs.StringVar(&o.repo, "repo", "/repo", "repository root")
+	fs.StringVar(&o.prop, "prop", "", "property id (functions whose contract lists it)")
+	fs.StringVar(&o.fnre, "fn", "", "regexp selecting functions by name (overrides -prop)")
+	fs.IntVar(&o.timeout, "timeout", 10, "per-obligation solver timeout in seconds")
+	fs.StringVar(&o.out, "json", "", "write a JSON report here")
+	fs.StringVar(&o.dump, "dumpdir", "", "write failing/undecided SMT queries here")
+	fs.BoolVar(&o.verbose, "v", false, "print every obligation")
+	fs.IntVar(&o.jobs, "j", 16, "parallel solver jobs")
+	fs.BoolVar(&o.content, "content", false, "byte-content axioms for append (T2)")
 	fs.Parse(args)
+	res := runVerify(&o)
+	if res.LoadErr != "" {
+		return 2
+	}
+	if res.Failed+res.Undec+res.Vacuous > 0 {
+		return 1
+	}
+	for _, rep := range res.Reports {
+		if rep.Error != "" {
+			return 1
+		}
+	}
+	return 0
+}
 
+func runVerify(o *verifyOpts) *verifyResult {
+	repo, prop, fnre, timeout, out, dump, verbose, jobs, content := &o.repo, &o.prop, &o.fnre, &o.timeout, &o.out, &o.dump, &o.verbose, &o.jobs, &o.content
 	t0 := time.Now()
 	e, err := loadEngine(*repo)
 	if err != nil {
 		fmt.Fprintln(os.Stderr, "load:", err)
-		return 2
+		return &verifyResult{LoadErr: err.Error()}
 	}
 	e.contentMode = *content
 	loadMs := time.Since(t0).Milliseconds()
@@ -235,7 +274,9 @@ func cmdVerify(args []string) int {
 			fmt.Printf("ERROR %s: %s\n", rep.Fn, rep.Error)
 		}
 		for _, u := range rep.Unsupported {
-			fmt.Printf("UNSUPPORTED %s: %s\n", rep.Fn, u)
+			if !o.quiet {
+				fmt.Printf("UNSUPPORTED %s: %s\n", rep.Fn, u)
+			}
 		}
 		for _, o := range rep.Obls {
 			solverMs += o.Ms
@@ -273,15 +314,7 @@ func cmdVerify(args []string) int {
 		}, "", " ")
 		_ = os.WriteFile(*out, data, 0o644)
 	}
-	if failed+undec+vac > 0 {
-		return 1
-	}
-	for _, rep := range reports {
-		if rep.Error != "" {
-			return 1
-		}
-	}
-	return 0
+	return &verifyResult{Reports: reports, Total: total, OK: ok, Failed: failed, Undec: undec, Vacuous: vac, LoadMs: loadMs, SolverMs: solverMs, WallS: time.Since(t0).Seconds(), eng: e}
 }
 
 func firstLine(s string) string {
